@@ -84,7 +84,12 @@ impl NativeFunctionCompiler for SetElementOf {
     if arguments.len() != 2 {
       return Err(MechError::new(IncorrectNumberOfArguments { expected: 2, found: arguments.len() }, None).with_compiler_loc());
     }
-    let elem = arguments[0].clone();
+    // A variable on the left arrives as a reference: membership is decided on the value it holds
+    // (a reference never equals, nor hashes like, an element of the set).
+    let elem = match arguments[0].clone() {
+      Value::MutableReference(reference) => reference.borrow().clone(),
+      value => value,
+    };
     let set = arguments[1].clone();
     match set_element_of_fxn(elem.clone(), set.clone()) {
       Ok(fxn) => Ok(fxn),
